@@ -1,6 +1,7 @@
 """C43 — language-server requests never crash and report valid ranges (PARTIAL by design)."""
 import json
 import os
+import re
 import time
 
 from checks import parse_common as P
@@ -118,7 +119,9 @@ def gen_docs(run, examples):
         for _ in range(rng.choice([0, 1, 1, 2])):
             s, lab = (P.mutate_bytes(s, rng) if rng.chance(1, 5) else P.mutate_grammar(s, rng))
             labs.append(lab)
-        if "nested-loops-big" in labs or len(s) > 900:
+        # definition / references re-parse the document for every position: keep declaration loops small
+        # (expansion limits and parse time are C41's subject)
+        if any(l.startswith("nested-loops") for l in labs) or len(s) > 900 or re.search(r"\.\.=?\s*-?\d{3,}", s):
             continue
         docs.append(("+".join(labs) or "fragment", s))
     return docs
